@@ -39,6 +39,7 @@ class Connection:
       raise gfapy.RuntimeError(
         "Line {} is already connected to a GFA instance".format(self))
     self._check_not_self_referencing()
+    self._check_segment_references(gfa)
     previous = gfa._search_duplicate(self)
     if previous:
       if previous.virtual and \
@@ -89,6 +90,34 @@ class Connection:
             "Line: {}\n".format(self)+
             "The identifier {} of the line ".format(name)+
             "is used in field {} to refer to another line".format(k))
+
+  def _check_segment_references(self, gfa):
+    """
+    The identifiers used by an edge, gap, fragment or GFA1 path to refer to
+    segments cannot be the identifiers of lines of other types; this is checked
+    before any placeholder is created or replaced for the references of the
+    line.
+    """
+    if self.record_type not in ["L", "C", "P", "E", "G", "F"]:
+      return
+    def check(ref):
+      if isinstance(ref, list):
+        for r in ref:
+          check(r)
+        return
+      if isinstance(ref, gfapy.OrientedLine):
+        ref = ref.line
+      if isinstance(ref, str):
+        found = gfa.line(ref)
+        if found is not None and found.record_type != "S" and \
+            not isinstance(found, gfapy.line.Unknown):
+          raise gfapy.NotUniqueError(
+            "Line: {}\n".format(self)+
+            "refers to a segment using the identifier {}\n".format(ref)+
+            "Line or ID not unique\n"+
+            "Matching previous line: {}".format(found))
+    for k in self.__class__.REFERENCE_FIELDS:
+      check(self.get(k))
 
   def _rollback_connect(self):
     """
